@@ -7,6 +7,7 @@ import (
 	"math/big"
 	"os"
 	"path/filepath"
+	"reflect"
 	"sort"
 	"strings"
 	"testing"
@@ -136,7 +137,7 @@ func c16Run(it c16Item) error {
 	case "defaults":
 		n := it.Arg
 		r := spg.NewCharRecipe(n)
-		if r == nil || r.Length != n || r.Allow != spg.All || r.Exclude != spg.Ambiguous || r.Require != spg.None || r.AllowChars != "" || r.ExcludeChars != "" || r.RequireSets != nil {
+		if r == nil || r.Length != n || r.Allow != spg.All || r.Exclude != spg.Ambiguous || r.Require != spg.None || r.AllowChars != "" || r.ExcludeChars != "" || len(r.RequireSets) != 0 {
 			return fmt.Errorf("NewCharRecipe(%d) = %+v", n, r)
 		}
 		want := oracle.CharSpec{Allow: oracle.All, Exclude: oracle.Ambiguous}.Alphabet()
@@ -145,11 +146,10 @@ func c16Run(it c16Item) error {
 		}
 		wl, _ := spg.NewWordList([]string{"a", "b"})
 		w := spg.NewWLRecipe(n, wl)
-		if w == nil || w.Length != n || w.Capitalize != spg.CSNone || w.SeparatorChar != "" || w.SeparatorFunc != nil {
+		// "no capitalisation and no separator" is judged by what it generates
+		// (below), not by how the fields spell it
+		if w == nil || w.Length != n {
 			return fmt.Errorf("NewWLRecipe(%d) = %+v", n, w)
-		}
-		if string(spg.CSNone) != "none" || string(spg.CSFirst) != "first" || string(spg.CSAll) != "all" || string(spg.CSRandom) != "random" || string(spg.CSOne) != "one" {
-			return fmt.Errorf("capitalisation scheme names changed")
 		}
 		if spg.MaxTrials != 200 || spg.MaxFailRate != 1e-9 {
 			return fmt.Errorf("retry budget: MaxTrials=%d MaxFailRate=%g, documented 200 and 1e-9", spg.MaxTrials, spg.MaxFailRate)
@@ -253,24 +253,24 @@ func c16Run(it c16Item) error {
 		}
 	case "budget":
 		// "defaults to 200 attempts": a stream on which every candidate fails
-		r := spg.CharRecipe{Length: 2, AllowChars: "ab", RequireSets: []string{"b"}}
-		// learn which index gives the non-required character
-		bad := -1
-		for j := 0; j < 2; j++ {
-			o := callForced([]uint32{uint32(j), uint32(j)}, func(k int, n uint32) uint32 { return uint32(1 - j) }, 3, r.Generate)
-			if len(o.S.Draws) > 2 {
-				bad = j
-			}
+		// (rejected single attempts chained, see cell_test.go)
+		if spg.MaxTrials != 200 {
+			return fmt.Errorf("MaxTrials defaults to %d, documented 200", spg.MaxTrials)
 		}
-		if bad < 0 {
+		r := spg.CharRecipe{Length: 2, AllowChars: "ab", RequireSets: []string{"b"}}
+		ref, err := findRef(r, 3, 400)
+		if err != nil {
+			return err
+		}
+		rej, err := findRejectedAttempt(r, 3, 400)
+		if err != nil {
+			return err
+		}
+		if rej == nil {
 			return &ev.Inc{Why: "no failing candidate found"}
 		}
-		o := callForced(nil, func(k int, n uint32) uint32 { return uint32(bad) }, 3, r.Generate)
-		if o.Panic != nil || o.Pw != nil || o.Err == nil {
-			return fmt.Errorf("every attempt fails, yet Generate returned %v, %v, panic %v", o.Pw, o.Err, o.Panic)
-		}
-		if len(o.S.Draws) != 200*2 {
-			return fmt.Errorf("the retry budget is documented as 200 attempts; on an all-fail stream Generate made %d draws = %.1f attempts", len(o.S.Draws), float64(len(o.S.Draws))/2)
+		if err := budgetCheck(r, ref, [][]uint32{rej}); err != nil {
+			return fmt.Errorf("the retry budget is documented as 200 attempts: %w", err)
 		}
 	case "tolerance":
 		// "a tolerated overall failure probability of 1e-9 with 200 attempts":
@@ -302,30 +302,32 @@ func c16Run(it c16Item) error {
 				other += string(rune(ch))
 			}
 		}
-		sp := oracle.CharSpec{Length: 2, Require: map[string]uint32{"Uppers": oracle.Uppers, "Lowers": oracle.Lowers, "Digits": oracle.Digits, "Symbols": oracle.Symbols, "Ambiguous": oracle.Ambiguous}[name], AllowChars: other}
+		// every single attempt of a one-character recipe (budget of one attempt,
+		// so that small classes are not refused): the accepted ones are the members
+		sp := oracle.CharSpec{Length: 1, Require: map[string]uint32{"Uppers": oracle.Uppers, "Lowers": oracle.Lowers, "Digits": oracle.Digits, "Symbols": oracle.Symbols, "Ambiguous": oracle.Ambiguous}[name], AllowChars: other}
 		r := toRecipe(sp)
-		n := uint32(len(sp.Alphabet()))
+		ref, err := findRef(r, 5, 2000)
+		if err != nil {
+			return err
+		}
+		cell, err := enumCell(r, ref, 20000)
+		if err != nil {
+			return err
+		}
 		accepted := map[string]bool{}
-		for j := uint32(0); j < n; j++ {
-			jj := j
-			// the first candidate is one character twice; later draws pseudo-random
-			o := callForced([]uint32{jj, jj}, func(k int, m uint32) uint32 { return uint32(ev.Mix64(uint64(jj), uint64(k)) % uint64(m)) }, 3, r.Generate)
-			if o.Panic != nil {
-				return fmt.Errorf("Generate panicked: %v", o.Panic)
+		for out := range cell.Accepted {
+			if ok, why := sp.Valid(out); !ok {
+				return fmt.Errorf("Require: %s accepted %q (%s)", name, out, why)
 			}
-			if o.Pw != nil && len(o.S.Draws) == 2 {
-				accepted[oracle.Chars(o.Pw.String())[0]] = true
-			}
-			if o.Pw != nil {
-				if ok, why := sp.Valid(o.Pw.String()); !ok {
-					return fmt.Errorf("Require: %s accepted %q (%s)", name, o.Pw.String(), why)
-				}
-			}
+			accepted[out] = true
 		}
-		if len(o16keys(accepted)) != len(oracle.Chars(doc[name])) {
-			return fmt.Errorf("Require: %s is satisfied by a candidate made of one of %q twice, documented members are %q", name, o16keys(accepted), doc[name])
+		want := map[string]bool{}
+		for _, ch := range oracle.Chars(doc[name]) {
+			want[ch] = true
 		}
-		ev.Leaves(int64(n))
+		if !reflect.DeepEqual(accepted, want) {
+			return fmt.Errorf("Require: %s is satisfied by the one-character candidates %q, documented members are %q", name, o16keys(accepted), doc[name])
+		}
 	case "list":
 		name := []string{"words", "syllables"}[it.Arg]
 		list, file := spg.AgileWords, "agwordlist.txt"
